@@ -55,7 +55,7 @@ let fundecl () =
   let ps = times np (fun () -> let x = next_int () in let r = next_int () in { pname = nat_of_int x; pref = (r = 1) }) in
   let body = stmts () in
   let ret = if next_int () = 1 then Some (expr ()) else None in
-  { fparams = ps; fbody = body; fret = ret }
+  { fparams = ps; fbody = body; fret = ret; fnometa = false }
 
 let program () =
   (match next () with "P" -> () | t -> failwith ("prog " ^ t));
